@@ -453,6 +453,22 @@ Proof.
   destruct (lassoc n (objs pr)) as [l|]; [|intros H; inversion H; apply step_ok_refl].
   intros H; inversion H; subst. destruct (l_pool l); [apply release_pool_ok|apply step_ok_refl].
 Qed.
+Lemma prov6_release_ok q r duid s q' r' :
+  prov6_release Repaired q r duid s = (q', r') -> step_ok (other_than s) r r'.
+Proof.
+  unfold prov6_release.
+  destruct (match passoc duid (n_iana q) with
+            | Some (a, _, pool) =>
+                (mkProv6 (punassoc duid (n_iana q)) (unassoc a (n_addr q)) (n_pd q) (n_pfx q),
+                 match pool with Some k => release_pool Repaired F6 k (a, 0) s r | None => r end)
+            | None => (q, r)
+            end) as [q1 r1] eqn:E1.
+  assert (H1 : step_ok (other_than s) r r1).
+  { destruct (passoc duid (n_iana q)) as [[[a s'] pool]|]; inversion E1; subst; [|apply step_ok_refl].
+    destruct pool; [apply release_pool_ok|apply step_ok_refl]. }
+  destruct (passoc duid (n_pd q1)) as [[[x s'] pool]|]; intros H; inversion H; subst; [|exact H1].
+  destruct pool; [|exact H1]. eapply step_ok_trans; [exact H1|apply release_pool_ok].
+Qed.
 Lemma prov_reserve_reg pr r ip mac sid pool pr' r' ok :
   prov_reserve Repaired pr r ip mac sid pool = (pr', r', ok) -> r' = r.
 Proof.
@@ -759,14 +775,18 @@ Proof.
   destruct (if ir then prov_release Repaired (st_prov st) r1 (s_mac s) (s_id s) else (st_prov st, r1))
     as [pr' r2] eqn:Ep.
   apply in_flat_map in H. destruct H as (r3 & H3 & H).
-  apply in_map_iff in H. destruct H as (r4 & E & H4). inversion E; subst; clear E.
+  apply in_map_iff in H. destruct H as (r4 & E & H4).
+  destruct (if ir then prov6_release Repaired (p6 pr') r4 (s_mac s) (s_id s) else (p6 pr', r4)) as [q' r5] eqn:E6.
+  inversion E; subst; clear E.
   apply dead_inv; auto.
   eapply step_ok_trans; [eapply rel_item_ok with (x := oitem (s_b4 s)) | ].
   { destruct (s_b4 s); exact H1. }
   eapply step_ok_trans with (r2 := r2).
   { destruct ir; [eapply prov_release_ok; exact Ep|inversion Ep; subst; apply step_ok_refl]. }
-  eapply step_ok_trans; [eapply rel_item_ok with (x := oitem (s_b6 s)) | eapply rel_item_ok; exact H4].
-  destruct (s_b6 s); exact H3.
+  eapply step_ok_trans; [eapply rel_item_ok with (x := oitem (s_b6 s)) | ].
+  { destruct (s_b6 s); exact H3. }
+  eapply step_ok_trans; [eapply rel_item_ok; exact H4|].
+  destruct ir; [eapply prov6_release_ok; exact E6|inversion E6; subst; apply step_ok_refl].
 Qed.
 
 (* ---------------------------------------------------------------- IPoE: ID / IQ / IS *)
@@ -854,8 +874,8 @@ Proof. intros Hk0 O. rewrite oitem_oaddr; auto. Qed.
 Lemma not_fd_fd (P : Prop) : FD <> FD -> P.
 Proof. intros H; exfalso; apply H; reflexivity. Qed.
 
-Lemma step_is_core_inv st s s0 st' o :
-  inv st -> ctx_of st s s0 -> In (st', o) (step_is_core Repaired st s0) -> inv st'.
+Lemma step_is_core_inv st s s0 isreq st' o :
+  inv st -> ctx_of st s s0 -> In (st', o) (step_is_core Repaired st s0 isreq) -> inv st'.
 Proof.
   intros Hinv (Hin & Hid & Hp & Hl & Hs0). pose proof Hinv as (Hr & _).
   destruct (Hs0 Hl) as (_ & OT & O6 & OD).
@@ -886,10 +906,16 @@ Proof.
         [exact Hinv|exact Hin|exact Hid|apply anyone_other; exact A12| |apply ipoe_told_ok; reflexivity].
       intros _. apply ipoe_sess_ok; cbn; auto. }
   assert (OD' : oo r2 (s_vrf s0) (s_id s0) FD ad) by (intros y Hy; apply B2; auto).
-  destruct a6 as [i6|]; [|destruct ad as [id'|]]; destruct H as [E|[]]; inversion E; subst;
-    (apply inv_update with (s := s);
-       [exact Hinv|exact Hin|exact Hid|apply anyone_other; exact A12| |apply ipoe_told_ok; reflexivity];
-     intros _; apply ipoe_sess_ok; cbn; auto using oo_none).
+  assert (Hfin : forall a6' ad' b6' bd' pr',
+            oo r2 (s_vrf s0) (s_id s0) F6 (oitem b6') -> oo r2 (s_vrf s0) (s_id s0) FD bd' ->
+            inv (mkState r2 (put_sess (is_mk s0 a6' ad' b6' bd') (st_sess st)) pr')).
+  { intros a6' ad' b6' bd' pr' X Y.
+    apply inv_update with (s := s);
+      [exact Hinv|exact Hin|exact Hid|apply anyone_other; exact A12| |apply ipoe_told_ok; reflexivity].
+    intros _; apply ipoe_sess_ok; cbn; auto. }
+  destruct a6 as [i6|]; [|destruct ad as [id'|]]; cbv beta iota in H;
+    try (destruct (prov6_resolved _ _ _ _ _ _ _ _) as [q' [|]]);
+    destruct H as [E|[]]; inversion E; subst; apply Hfin; auto using oo_none.
 Qed.
 
 (* ---------------------------------------------------------------- PPPoE: PA *)
@@ -954,7 +980,7 @@ Qed.
 Lemma step_inv st o st' ot : inv st -> In (st', ot) (step Repaired st o) -> inv st'.
 Proof.
   intros Hinv. unfold step, skip.
-  destruct o as [sid vrf s4 s6 spd o4 o6 od|sid a|sid|isreq bind rq sid vrf s4 o4|sid vrf s6 spd o6 od|sid|sid|sid];
+  destruct o as [sid vrf s4 s6 spd o4 o6 od|sid a|sid|isreq bind rq sid vrf s4 o4|isreq sid vrf s6 spd o6 od|sid|sid|sid];
     destruct (find_sess sid st) as [s|] eqn:Ef;
     try (intros [E|[]]; inversion E; subst; exact Hinv);
     destruct (find_sess_in _ _ _ Ef) as [Hin Hid].
